@@ -4,6 +4,9 @@
    (character codes) and read by the grammar of ProxyProto.tla.
 
    {"ev":"parse",    "text":[..], "ok":bool}                ParseTrustedNetworks({text}) succeeded
+   {"ev":"cfglist",  "list":[[..]], "new_ok":bool, "validate_ok":bool}
+                     proxy.New with ProxyProtocol on and this proxyProtocolTrustedProxies succeeded /
+                     Config.Validate reported no error about the list
    {"ev":"contains", "nets":[[..]], "peer":[..], "via":"addr"|"str", "res":bool}
    {"ev":"wrap",     "nets":[[..]], "peer":[..], "first":kind, "hdr":[..] source address in the header
                      as RemoteAddr text, "err":bool first read failed, "remote":[..] RemoteAddr()
@@ -20,6 +23,12 @@ TParse == /\ IsEv("parse")
                  q == ParseNet(r.text)
              IN q.st = "amb" \/ r.ok = (q.st = "ok")
           /\ UNCHANGED <<p, peer>>
+
+TCfgList == /\ IsEv("cfglist")
+            /\ LET r == Rec
+                   v == ListVerdict(r.list)
+               IN v = "amb" \/ (r.new_ok = (v = "ok") /\ r.validate_ok = (v = "ok"))
+            /\ UNCHANGED <<p, peer>>
 
 TContains == /\ IsEv("contains")
              /\ LET r == Rec
@@ -43,7 +52,7 @@ TWrap == /\ IsEv("wrap")
                ELSE Fits(r, Outcome(Trusted(N, a), r.first))
          /\ UNCHANGED <<p, peer>>
 
-TNext == TParse \/ TContains \/ TWrap
+TNext == TParse \/ TCfgList \/ TContains \/ TWrap
 TSpec == p = 0 /\ peer = 0 /\ CursorInit /\ TLCSet(2, 0) /\ [][TNext]_<<p, peer, l>>
 Accepted2 == PrintT(<<"NETSBAD", TLCGet(2)>>) /\ Accepted
 =============================================================================
